@@ -17,6 +17,6 @@ PROP = {
         "'syntax errors' = any error (SyntaxError or DocError) reported by LuaParser::parse with the default ParserConfig on the emitted text",
         "'declares the root type' = a ---@class / ---@alias / ---@enum tag whose name token equals ConvertResult.root_type_name",
     ],
-    "level_text": "Generated schemas are converted by the real converter and the emitted annotations are parsed by the real parser. ~80k schemas (quick).",
+    "level_text": "Generated schemas are converted by the real converter and the emitted annotations are parsed by the real parser. 16 x 4 000 schemas (quick), 16 x 200 000 (thorough).",
     "level_note": "Semantic correctness of the emitted types (right type for the right field) is not judged.",
 }
